@@ -52,8 +52,8 @@ CHECKS = {
    design="6/C19, 11"),
  "C20": dict(level="exploration", engine="E-ENUM",
    technique="exhaustive enumeration of ALL layout vectors of an independent master-file printer for 1-record files, ordered pairs (and triples) of records, plus all short garbage strings, complete single-edit neighbourhoods of seed files and growth families, through the real zone-file parser",
-   text="92 records (all 22 parser-supported types x value shapes x owner/TTL/class envelopes) printed under every legal layout vector (name forms, TTL/class inheritance and order, $ORIGIN/$TTL, separators, comments, parentheses over 1-3 lines, quoted/unquoted strings, line endings): 5.5 M single-record and 6.6 M (quick) / 104 M (thorough) two-record files, 11.6 M triples; the parsed record set must equal the printed one. Malformed: all strings of length <=5/6 over 15 characters, 222 k single edits of 63 seeds (14 M double edits thorough), 25 growth families to 2^16, $INCLUDE cases; parse() must return, never panic or hang.",
-   note="Trusted: vref::masterfile printer (declares a layout illegal when it would not denote the record). \\DDD escapes and escapes in unquoted strings are observations.",
+   text="92 records (all 22 parser-supported types x value shapes x owner/TTL/class envelopes) printed under every legal layout vector (name forms, TTL/class inheritance and order, $ORIGIN/$TTL, separators, comments, parentheses over 1-3 lines, quoted/unquoted strings, line endings): 5.5 M single-record and 6.6 M (quick) / 104 M (thorough) two-record files, 11.6 M triples; the parsed record set must equal the printed one. Further valid-direction families: chain triples of plain records x every state-carrying layout (4.0 M; depth 4 thorough 28 M), RRsets, CH/HS, names at the 63/255-octet limits relative to long origins, TTL tokens, the file-store loader differential (file -> FileZoneHandler -> loaded zone and AXFR == records of the file, 66 k zone files), $INCLUDE splits (11.5 k + 240 through the store), and a token-splitting dimension: the trailing hex/base64 field of every TLSA/SMIMEA/DS/CERT shape written as 2 tokens cut at every character position (3 tokens at every pair of positions for TLSA/DS; thorough: everywhere and for 64..600-octet blobs) x 4 separators incl. line breaks in parentheses must load to the un-split record (295 k quick / 18.2 M thorough). Malformed: all strings of length <=5/6 over 15 characters, 222 k single edits of 63 seeds (14 M double edits thorough), 25 growth families to 2^16, $INCLUDE cases; parse() must return, never panic or hang.",
+   note="Trusted: vref::masterfile printer (declares a layout illegal when it would not denote the record). \\DDD escapes and escapes in unquoted strings are observations; splitting SSHFP/OPENPGPKEY blobs (their RFCs are silent about inner white space) and the $INCLUDE origin argument are only counted.",
    design="6/C20, 11"),
  "C06": dict(level="exploration", engine="E-ENUM+E-STATE",
    technique="exhaustive enumeration of every single-bit flip and single-field replacement of honest (answer, DNSKEY) response pairs x a clock grid incl. the u32 wrap, and of all validate/advance histories up to depth 4/5 on a shared handle, against an independent only-if acceptance predicate (reference signed data + ring)",
